@@ -202,4 +202,31 @@ example : AMap.get (runT exCfg false exX0 (exEvsT.take 18)).P.led.balance "w3" =
     (runT exCfg true exX0 exEvsT).P.led.credits.map (fun e => (e.1.tx, e.1.idx)) = [("c4", 0)] ∧
     (runT exCfg true exX0 exEvsT).P.led.txrecs.map (·.1.1) = ["c4"] := by decide
 
+/-- A QUIET POINT INSIDE THE OPEN IMPORT WINDOW (`crash_equiv_tasks_quiet`): the first 17 events, then one more batch —
+    now the run that never stops has finished the rescan too (its follower has caught up), the window is still open in
+    the skeleton, nothing is queued, no task is pending in either run -/
+def exEvsW : List EvT := exEvsT.take 17 ++ [.importStep "w3"]
+
+theorem exEquivW : (runT exCfg true exX0 exEvsW).queue = [] ∧
+    AMap.Equiv (runT exCfg true exX0 exEvsW).P.led.credits (runT exCfg false exX0 exEvsW).P.led.credits ∧
+    (runT exCfg true exX0 exEvsW).V.led.best = (runT exCfg false exX0 exEvsW).V.led.best := by
+  have hsplit : exEvsT = exEvsT.take 17 ++ exEvsT.drop 17 := (List.take_append_drop 17 exEvsT).symm
+  have hR : RunOKT exCfg hxG exK0T exEvsW := by
+    refine (runOKT_append _ _ _).2 ⟨?_, ⟨rfl, trivial⟩⟩
+    have := exRunOKT
+    rw [hsplit] at this
+    exact ((runOKT_append _ _ _).1 this).1
+  have hg : ∀ cr, GuardT exCfg cr exX0 exEvsW := by
+    intro cr
+    refine (guardT_append _ _ _).2 ⟨?_, ⟨trivial, trivial⟩⟩
+    have := exGuard cr
+    rw [hsplit] at this
+    exact ((guardT_append _ _ _).1 this).1
+  have h := crash_equiv_tasks_quiet ex4StaticOK rfl (by decide) (by decide) exEvsW exX0 exK0T exJT0 hR (hg true) (hg false)
+    (by show importDone (runT exCfg true exX0 exEvsW).P "w3" = true; decide)
+    (by show importDone (runT exCfg false exX0 exEvsW).P "w3" = true; decide) (by decide)
+  exact ⟨h.1, h.2.2.2.2.1, h.2.2.2.2.2.2.2.2.2.2.2.2.1⟩
+
+example : (skRunT exCfg exK0T exEvsW).busy = some (.imp "w3") := by rfl
+
 end MW.Lemmas.Deepen4
